@@ -194,7 +194,8 @@ class Kernel:
            'Eq': lambda a, b: a == b, 'Ne': lambda a, b: a != b,
            'BitOr': lambda a, b: a | b, 'BitAnd': lambda a, b: a & b, 'BitXor': lambda a, b: a ^ b,
            'Add': lambda a, b: a + b, 'Sub': lambda a, b: a - b, 'Mul': lambda a, b: a * b,
-           'AddUnchecked': lambda a, b: a + b, 'SubUnchecked': lambda a, b: a - b}
+           'AddUnchecked': lambda a, b: a + b, 'SubUnchecked': lambda a, b: a - b,
+           'Div': z3.UDiv, 'Rem': z3.URem}
 
     def rvalue(self, txt, env):
         txt = txt.strip()
@@ -430,7 +431,7 @@ class Kernel:
                 self.obligations.append((list(pc), v, 'MIR assert: ' + m.group(2)))
                 return self._exec(it, m.group(4), env, pc + [v], results, depth + 1)
             m = re.match(r'(_\d+|\(.+?\)) = (.+?)\((.*)\) -> (\[return: (bb\d+), unwind.*\]|unwind .*)$', st)
-            if m and not re.match(r'(Lt|Le|Gt|Ge|Eq|Ne|Shl|Shr|ShlUnchecked|ShrUnchecked|BitOr|BitAnd|BitXor|Add|Sub|Mul|AddUnchecked|SubUnchecked|AddWithOverflow|SubWithOverflow|MulWithOverflow|discriminant|Not)$', m.group(2)):
+            if m and not re.match(r'(Lt|Le|Gt|Ge|Eq|Ne|Div|Rem|Shl|Shr|ShlUnchecked|ShrUnchecked|BitOr|BitAnd|BitXor|Add|Sub|Mul|AddUnchecked|SubUnchecked|AddWithOverflow|SubWithOverflow|MulWithOverflow|discriminant|Not)$', m.group(2)):
                 args = [self.operand(x, env) for x in split_top(m.group(3))]
                 try:
                     outs = self.call(m.group(2), args, pc)
